@@ -1079,3 +1079,25 @@ package app
 //@   assert_at GetChildren#1 wrap.FetchCascadeNodeConfigurations.key [C16]: callarg0 == dcs.PathCascadeNodesPrefix
 //@   assert_at JoinPath#1 wrap.FetchCascadeNodeConfigurations.node_key [C16]: len(callarg0) == 2 && callarg0[0] == dcs.PathCascadeNodesPrefix && callarg0[1] == host
 //@   assert_at Get#1 wrap.FetchCascadeNodeConfigurations.op [C16]: callarg0 == resultof("JoinPath", 1)
+
+// ---- the marker-file helpers against the os primitives: each touches the file its name says (their effect
+// contracts stay assumed in /verif/specs/env.spec; what os.WriteFile / os.Remove / os.Stat do is trusted)
+//@ func (*app.App).writeMaintenanceFile
+//@   flags partial
+//@   assert_at WriteFile#1 wrap.writeMaintenanceFile.path [C09]: callarg0 == app.config.Maintenancefile
+//@   assert_at return#* wrap.writeMaintenanceFile.done [C09]: reached("WriteFile", 1)
+//@ func (*app.App).removeMaintenanceFile
+//@   flags partial
+//@   assert_at Remove#1 wrap.removeMaintenanceFile.path [C09]: callarg0 == app.config.Maintenancefile
+//@   assert_at return#* wrap.removeMaintenanceFile.done [C09]: reached("Remove", 1)
+//@ func (*app.App).writeResetupFile
+//@   flags partial
+//@   assert_at WriteFile#1 wrap.writeResetupFile.path [C11,C10]: callarg0 == app.config.Resetupfile
+//@   assert_at return#* wrap.writeResetupFile.done [C11,C10]: reached("WriteFile", 1)
+//@ func (*app.App).writeEmergeFile
+//@   flags partial
+//@   assert_at WriteFile#1 wrap.writeEmergeFile.path [C01,C09]: callarg0 == app.config.Emergefile
+//@   assert_at return#* wrap.writeEmergeFile.done [C01,C09]: reached("WriteFile", 1)
+//@ func (*app.App).doesMaintenanceFileExist
+//@   assert_at Stat#1 wrap.doesMaintenanceFileExist.path [C09]: callarg0 == app.config.Maintenancefile
+//@   assert_at return#* wrap.doesMaintenanceFileExist.answer [C09]: reached("Stat", 1) && (result <==> resultof("Stat", 1, 1) == nil)
